@@ -138,7 +138,9 @@ def check_tokens(case):
 # ---- documents under two headers ---------------------------------------------------------------------------------------
 @st.composite
 def doc_cases(draw):
-    P = D.profile('full', types=['**kern', '**text'], min_spines=2, max_spines=3, kern_weight=0, splits=True, max_body=10)
+    nokern = draw(st.integers(0, 2)) == 0  # a whole document without any **kern spine
+    P = D.profile('full', types=['**text'] if nokern else ['**kern', '**text'], min_spines=1 if nokern else 2, max_spines=3,
+                  kern_weight=0, splits=True, max_body=10, force_kern=not nokern)
     doc = draw(D.documents(P))
     h1, h2 = draw(st.lists(st.sampled_from(HEADS), min_size=2, max_size=2, unique=True))
     return {'doc': doc, 'h1': h1, 'h2': h2}
@@ -180,6 +182,10 @@ def check_doc(case):
                         toks.append([i, k, 'own'])
                     if cell['k'] == 'bar' and t.category.name != 'BARLINES':
                         raise Bad('doc-barline-missed', f'under {h}: barline {cell["t"]!r} imported as {tsig(t)}')
+        bar_stages = [i + 1 for i in a.cell_rows if any(c['k'] == 'bar' for c in d['rows'][i]['c'])]
+        missing = [st_ for st_ in bar_stages if st_ not in kd.measure_start_tree_stages]
+        if missing:
+            raise Bad('doc-barline-not-a-measure-start', f'under {h}: barline rows at stages {missing} are not in the measure index {list(kd.measure_start_tree_stages)}\n{text}')
         out.append((list(kd.measure_start_tree_stages), toks, text))
     if out[0][0] != out[1][0]:
         raise Bad('measure-index-differs', f'measure starts {out[0][0]} under {case["h1"]} but {out[1][0]} under {case["h2"]}\n{out[0][2]}')
